@@ -111,6 +111,39 @@ def walk_extra_cases(ctx):
         for p in ("tape", "slice", "reader:%d:%s" % (rng.choice([32, 40, 64, 32768]), rng.choice(["-", "1*", "3,5*", "2,7,1"]))):
             out.append("\t".join(["de.model.bin", p, strat, res, fl, shape, hx(b)]))
         ctx.count("walk_extra_docs")
+    # fitting shapes on truncated / damaged renderings: end-of-input and bad tokens met in every nested context
+    for _ in range(ctx.scale(300, 3000)):
+        doc = D.gen_doc(rng, ops=False, i64=False)
+        fl = rng.choice(["eu4", "raw"])
+        ids = doc["ids"]
+        M = D.Mode("bin", flavor=fl, strategy="ignore", known=set(ids), ids=ids)
+        sh = None
+        for _k in range(10):
+            cand = D.gen_shape(rng, [doc], dict(mode="bin", full=rng.random() < 0.7, mishint=0.0, prop=False, any=True, root=True, rgb_any=True))
+            if D.expected(cand, doc, M) != "ERR:unfit":
+                sh = cand
+                break
+        if sh is None:
+            continue
+        b = D.render_bin(doc, fl)
+        res = D.resolver_spec(ids, set(ids), "map")
+        variants = []
+        for _j in range(4):
+            if len(b) > 2:
+                variants.append(b[:rng.randrange(1, len(b))])
+        if len(b) > 4:
+            i = rng.randrange(0, len(b), 2)
+            variants.append(b[:i] + rng.choice([D.OPEN, D.CLOSE, D.EQ, D.CLOSE + D.CLOSE]) + b[i:])
+            variants.append(b[:i] + b[i + 2:])
+        # a ghost / empty container whose `}` is replaced by something else: what the key loops swallow after an Open
+        g = b.find(D.OPEN + D.CLOSE)
+        if g >= 0 and g % 2 == 0:
+            for repl in (D.tok(0x0c) + struct.pack("<i", 5), D.tok(0x0e) + b"\x01", D.bstr(b"zz", True), D.tok(0x1234), D.EQ):
+                variants.append(b[:g] + D.OPEN + repl + b[g + 4:])
+        for v in variants:
+            for p in ("tape", "slice", "reader:%d:%s" % (rng.choice([64, 32768]), rng.choice(["-", "1*", "4,9*"]))):
+                out.append("\t".join(["de.model.bin", p, "ignore", res, fl, D.shape_str(sh), hx(v)]))
+        ctx.count("walk_damaged_docs")
     return out
 
 
